@@ -68,7 +68,7 @@ func readJSON(path string, v interface{}) {
 type popFlags struct {
 	seed                                                         int64
 	smallMax, smallSlice, smallSlices                            int
-	nrand, ndp, nctx, nexpr, nplanted, nfeat, nlong, nbig, nring int
+	nrand, ndp, nctx, nexpr, nplanted, nfeat, nlong, nbig, nring, nopt int
 	corpus                                                       string
 	featctrl                                                     bool
 }
@@ -87,6 +87,7 @@ func (p *popFlags) register(fs *flag.FlagSet) {
 	fs.IntVar(&p.nlong, "nlong", 0, "grammars with long right-hand sides")
 	fs.IntVar(&p.nbig, "nbig", 0, "large grammars (100-300 states)")
 	fs.IntVar(&p.nring, "nring", 0, "mutually right-recursive rings (includes-SCCs)")
+	fs.IntVar(&p.nopt, "nopt", 0, "optional parts defined after use (nullable through later rules)")
 	fs.BoolVar(&p.featctrl, "featctrl", false, "surface-feature grammars may use tab / line feed as character literals")
 	fs.StringVar(&p.corpus, "corpus", "", "corpus directory")
 }
@@ -115,6 +116,9 @@ func (p *popFlags) cases() []*Case {
 	}
 	for i := 0; i < p.nexpr; i++ {
 		res = append(res, GenExpr(r, fmt.Sprintf("expr-%d-%d", p.seed, i)))
+	}
+	for i := 0; i < p.nopt; i++ {
+		res = append(res, GenOpts(r, fmt.Sprintf("opts-%d-%d", p.seed, i)))
 	}
 	for i := 0; i < p.nring; i++ {
 		res = append(res, GenRing(r, fmt.Sprintf("ring-%d-%d", p.seed, i)))
